@@ -75,6 +75,24 @@ struct Greater : CmpProv {
   static const char *name() { return "greater"; }
 };
 // equivalence classes of two keys: which representative survives is observable through the payload
+// EMPTY comparator classes (no provenance tag, no state): library code that specialises on std::is_empty<Compare> - as it may for the default
+// std::less<T> - is reached only with such a type. (No provenance check and no call counting is possible with them.)
+struct EmptyLess {
+  EmptyLess() {}
+  explicit EmptyLess(int) {}
+  template <class A, class B>
+  bool operator()(const A &a, const B &b) const { return key_of(a) < key_of(b); }
+  static const char *name() { return "empty_less"; }
+  static int cls(int k) { return k; }
+  static bool lt(int a, int b) { return a < b; }
+};
+struct EmptyCoarse {
+  EmptyCoarse() {}
+  explicit EmptyCoarse(int) {}
+  template <class A, class B>
+  bool operator()(const A &a, const B &b) const { return key_of(a) / 2 < key_of(b) / 2; }
+  static const char *name() { return "empty_coarse"; }
+};
 struct Coarse : CmpProv {
   Coarse() {}
   explicit Coarse(int o) : CmpProv(o) {}
